@@ -98,6 +98,20 @@ def runLoop (stop : Option Kind) (body : St → St) : Nat → St → Option (St 
       if isEof s then some (s, 0)
       else (runLoop stop body n (body s)).map fun (r, c) => (r, c + 1)
 
+/-- the fuel-AWARE reading of "at the end of input", `self.at(T![eof])`: one `peek`, so it answers
+`true` whenever the parser is out of fuel. This is NOT `Parser::eof` (the translator asserts that
+`eof()` is the plain `self.input.eof()`, i.e. `isEof`); it is in the model so that the theorems can
+say what every `!p.eof()` guard and the top-level loop rely on (`Props/C12.lean`). -/
+def eofViaPeek (s : St) : Bool × St := atK s EOF
+
+/-- `while !p.at(T![eof]) { body }`: the top-level loop if `eof()` went through `peek()` -/
+def runLoopPeekEof (body : St → St) : Nat → St → Option (St × Nat)
+  | 0, s => let (b, s1) := eofViaPeek s; if b then some (s1, 0) else none
+  | n + 1, s =>
+    let (b, s1) := eofViaPeek s
+    if b then some (s1, 0)
+    else (runLoopPeekEof body n (body s1)).map fun (r, c) => (r, c + 1)
+
 /-- an `if p.at(..) {..} else if p.at_any(..) {..} … else { p.advance_with_error(..) }` chain:
 every guard is one `peek`; the branch taken is an arbitrary parser function -/
 def dispatch : List ((Kind → Bool) × (St → St)) → St → St
